@@ -29,7 +29,7 @@ PROFILE = {
 class C04:
     prop = "C04"
     level = "exploration"
-    budgets = {"quick": 1200, "thorough": 60000}
+    budgets = {"quick": 1800, "thorough": 60000}
     warm_refinement = True
 
     def generate(self, rnd, index, tier):
